@@ -27,6 +27,26 @@ def run(tier, seed):
                      {"op": "req", "name": "cvT", "save": True, "req": {"type": "cv", "name": "cvT"}},
                      {"op": "req", "name": "rawf0", "save": True, "req": {"type": "flow", "flow_name": "f0", "raw": True}}]
         progs.append(p)
+    for i in range(max(4, n // 12)):
+        r = g.rng
+        kind_inf = r.choice(["infection_frequency", "infection_density"])
+        ops = [{"op": "pop", "dist": {"S": gen.dy(r, 100, 900, 0), "I": gen.dy(r, 10, 90, 0)}},
+               {"op": "flow", "kind": kind_inf, "name": "f0", "param": gen.frac(r), "src": "S", "dst": "I"},
+               {"op": "flow", "kind": "transition", "name": "rec", "param": gen.frac(r), "src": "I", "dst": "R"}]
+        names = r.sample(["loc", "risk", "vac"], r.choice([2, 3]))
+        for j, nm in enumerate(names):
+            strata = gen.STRATA_POOL[nm][:2]
+            mix = [[gen.frac(r) for _ in range(2)] for _ in range(2)]
+            if j == 0 or r.random() < 0.3:
+                mix[0][1] = {"+": [gen.frac(r), {"*": ["1/16", "t"]}]}        # the first matrix depends on time
+            elif r.random() < 0.5:
+                mix[1][0] = {"p": r.choice(gen.PARAMS)}
+            ops.append({"op": "strat", "kind": "plain", "name": nm, "strata": strata, "comps": ["S", "I", "R"], "fadj": [], "iadj": {}, "mix": mix})
+        ops += [{"op": "cv", "name": "cvT", "e": {"+": [{"c": 0}, {"*": ["1/2", "t"]}]}},
+                {"op": "req", "name": "cvT", "save": True, "req": {"type": "cv", "name": "cvT"}},
+                {"op": "req", "name": "rawf0", "save": True, "req": {"type": "flow", "flow_name": "f0", "raw": True}}]
+        progs.append({"times": ["0", "2", "1"], "comps": ["S", "I", "R"], "inf": ["I"], "ops": ops, "nonlinear": True,
+                      "meta": {"flows": [kind_inf, "transition"], "strats": ["plain"] * len(names), "mix": len(names)}})
     out = []
     for p, st in with_struct(progs):
         if st is None:
